@@ -247,12 +247,12 @@ def check_time_average(run, pkg):
             ok = tri_lazy(lambda: (True if (len(cs) == 1) else None), lambda: (True if (common(args(cs[0]))) else None), lambda: eqv(args(cs[0]).get("input_property"), PHI))
             run.ob("R-ALG", fq, f"{tag}:input", ok, "the complex order parameter itself is window-averaged (same trajectory, period, dt)", f"{len(cs)} calls", witness=None if ok else "another quantity averaged", loc=fi.loc(), sound=True)
             okr = tri_lazy(lambda: (True if (ok) else None), lambda: eqv(ret, ("tuple", (("elem", cs[0].data["result"], 0), ("elem", cs[0].data["result"], 1)))))
-            run.ob("R-ALG", fq, f"{tag}:return", bool(okr), "returns (averaged values, middle frame ids) of that call", show(ret)[:80] if ret else "?", witness=None if okr else "return differs", loc=fi.loc(), sound=True)
+            run.ob("R-ALG", fq, f"{tag}:return", okr, "returns (averaged values, middle frame ids) of that call", show(ret)[:80] if ret else "?", witness=None if okr else "return differs", loc=fi.loc(), sound=True)
         else:
             ok = len(cs) == 2 and all(common(args(e)) for e in cs)
             ins = [args(e).get("input_property") for e in cs] if ok else []
             okin = tri_lazy(lambda: (True if (ok) else None), lambda: eqv(ins[0], ("call", "numpy.abs", (PHI,), ()), ("call", "numpy.absolute", (PHI,), ())), lambda: eqv(ins[1], ("call", "numpy.angle", (PHI,), ())))
-            run.ob("R-ALG", fq, f"{tag}:input", bool(okin), "modulus |psi| and phase arg(psi) are window-averaged separately", ", ".join(show(x)[:40] for x in ins), witness=None if okin else "modulus/phase inputs wrong", loc=fi.loc(), sound=True)
+            run.ob("R-ALG", fq, f"{tag}:input", okin, "modulus |psi| and phase arg(psi) are window-averaged separately", ", ".join(show(x)[:40] for x in ins), witness=None if okin else "modulus/phase inputs wrong", loc=fi.loc(), sound=True)
             if okin and ret is not None and ret[0] == "tuple" and len(ret[1]) == 2:
                 mod, ph = ("elem", cs[0].data["result"], 0), ("elem", cs[1].data["result"], 0)
                 m, p = sp.symbols("m p", real=True)
